@@ -303,6 +303,10 @@ func genC03World(t *rapid.T) C03World {
 			w.MSI[k] = int64(uni(t, "msi.v", -50, 50))
 		}
 	}
+	if pct(t, "msi.padded", 50) {
+		w.MSI[" k1"] = int64(uni(t, "msi.pv", 51, 90))
+		w.O.MS["k2 "] = float32(uni(t, "O.MS.pv", 9, 16))
+	}
 	if pct(t, "msi.empty", 50) {
 		w.MSI[""] = int64(uni(t, "msi.ev", 1, 50))
 	}
@@ -579,7 +583,8 @@ func (g *c03Gen) strKey() *dsl.Expr {
 	if ls := g.locals['s']; len(ls) > 0 && pct(g.t, g.lbl("skv"), 30) {
 		return dsl.Var(ls[uni(g.t, g.lbl("sk"), 0, len(ls)-1)])
 	}
-	return dsl.Str(append(c02Keys, "zz")[uni(g.t, g.lbl("key"), 0, 3)])
+	// literal keys, also with leading / trailing blanks (which are part of the key)
+	return dsl.Str([]string{"k1", "k2", "k3", "zz", " k1", "k2 ", " k3 "}[uni(g.t, g.lbl("key"), 0, 6)])
 }
 
 // sliceKey: literal index, or a variable of class int of a width different from int.
